@@ -245,6 +245,14 @@ def cases(tier):
             if ei % 5 == 0:
                 for cls in ("kFlowDecomp", "kLeastAbsErrors", "kMinPathError"):
                     yield dict(cls=cls, edges=edges, wt="int", k=2, opts="off", superset=[fl[0], fl[-1], fl[-1] + 1])
+    # curated: several SOURCES with empty walks allowed (a layer must still use at most one source edge) - seeded change C01-m2
+    multi_source = [[("x", "y", 2), ("y", "y", 1), ("y", "w", 2), ("z", "v", 3)],
+                    [("x", "w", 1), ("z", "w", 2), ("w", "w", 1), ("w", "v", 3)],
+                    [("x", "y", 4), ("y", "z", 8), ("z", "y", 4), ("z", "w", 4), ("v", "u", 4)]]
+    for edges in multi_source:
+        for cls in CYC_CLASSES:
+            for k in (1, 2):
+                yield dict(cls=cls, edges=[list(e) for e in edges], wt="int", k=k, opts="off", allow_empty=True)
     for ei, edges in enumerate(cyc_flow_instances(tier)):
         nodes = sorted({u for u, v, f in edges} | {v for u, v, f in edges})
         for ci, cls in enumerate(CYC_CLASSES):
